@@ -102,12 +102,24 @@ MALFORMED = [
 ]
 
 
+PREV = {'entry': None}
+
+
 def gen_case(rng, malformed):
   anchor = gen_date(rng)
   n = rng.choice([0, 1, 1, 2, 3, 5, 8, 12]) if not malformed else rng.choice([0, 1, 2, 4])
   entries, windows = [], []
+  if not malformed and PREV['entry'] is not None and rng.random() < 0.3:
+    entries.append(PREV['entry'][0])      # an entry of the previous call comes again, in other company
+    windows.append(PREV['entry'][1])
   for _ in range(n):
     s, w = gen_entry(rng, anchor)
+    if windows and rng.random() < 0.15:
+      # same first day as an earlier entry, another last day (the longer one need not come last)
+      lo = windows[rng.randrange(len(windows))][0]
+      hi = lo + rng.choice([0, 1, 3, 9, 40])
+      s = fmt(datetime.date.fromordinal(lo)) + ((' - ' + fmt(datetime.date.fromordinal(hi))) if hi > lo or rng.random() < 0.5 else '')
+      w = (lo, hi)
     entries.append(s)
     windows.append(w)
     if rng.random() < 0.2:       # exact duplicate
@@ -119,6 +131,8 @@ def gen_case(rng, malformed):
     entries.insert(rng.randint(0, len(entries)), MALFORMED[k](rng, anchor))
     kind = k
   else:
+    if entries:
+      PREV['entry'] = (entries[0], windows[0])
     rng.shuffle(entries)
   return {'entries': entries, 'windows': windows, 'malformed': kind}
 
